@@ -57,7 +57,7 @@ fn run_script(sc: &Value) -> (Vec<Vec<String>>, Value) {
 }
 
 fn main() {
-    std::panic::set_hook(Box::new(|_| {}));
+    exec::install_panic_hook();
     let args = Args::parse();
     let scripts = read_jsonl(&args.str("scripts", "scripts.jsonl"));
     let threads = args.u64("threads", 48) as usize;
